@@ -63,6 +63,20 @@ Definition s_transfer_encoding : bytes := [84;114;97;110;115;102;101;114;45;69;1
 Definition s_trailer : bytes := [84;114;97;105;108;101;114].
 Definition s_connection : bytes := [67;111;110;110;101;99;116;105;111;110].
 
+Definition s_pragma : bytes := [80;114;97;103;109;97].
+Definition s_cache_control : bytes := [67;97;99;104;101;45;67;111;110;116;114;111;108].
+Definition s_no_cache : bytes := [110;111;45;99;97;99;104;101].
+(* fixPragmaCacheControl (ReadRequest): "Pragma: no-cache" as first Pragma value and no Cache-Control field at all
+   => Cache-Control: no-cache is added *)
+Definition fix_pragma (m : hmap) : hmap :=
+  match hfind s_pragma m with
+  | Some (v :: _) =>
+    if bytes_eqb v s_no_cache
+    then match hfind s_cache_control m with None => hset s_cache_control s_no_cache m | Some _ => m end
+    else m
+  | _ => m
+  end.
+
 (* ---- readTransfer (request side) ---- *)
 (* fixTransferEncoding: Some chunked? / None = 400.  The loop over the comma-separated codings of the FIRST value. *)
 Fixpoint te_loop (encs : list bytes) (acc : nat) : option nat :=
@@ -116,7 +130,7 @@ Definition fix_trailer (m : hmap) : option hmap :=
 
 (* the request as the handlers see it: header map, chunked?, content length *)
 Definition read_request (pairs : list (bytes * bytes)) : option (hmap * bool * Z) :=
-  let m0 := hdel s_host (parse_headers pairs) in
+  let m0 := fix_pragma (hdel s_host (parse_headers pairs)) in
   match fix_te m0 with
   | None => None
   | Some (m1, ch) =>
